@@ -138,6 +138,7 @@ type simpCase struct {
 	Eps    float64     `json:"epsilon"`
 	Closed bool        `json:"closed"`
 	D      bool        `json:"float_variant"`
+	Shift  [2]int64    `json:"extra_shift,omitempty"` // one more translation to compare with (0,0 = none)
 }
 
 func ratOfFloat(f float64) (num, den string) {
@@ -178,13 +179,20 @@ func c16Check(o *Oracle, c simpCase) (ok bool, kind, detail string) {
 		}
 	}
 	// the retained indices do not change under translation, or scaling of path and epsilon by a power of two
-	for _, t := range []struct {
+	type tf struct {
 		k      int64
 		dx, dy int64
-	}{{1, 1000, -777}, {1, (1 << 29) - 200, -(1 << 29) + 300}, {1 << 10, 0, 0}, {1 << 20, 0, 0}} {
+	}
+	tfs := []tf{{1, 1000, -777}, {1, (1 << 29) - 200, -(1 << 29) + 300}, {1 << 10, 0, 0}, {1 << 20, 0, 0}, {1 << 22, 0, 0}, {1 << 21, 1 << 27, -(1 << 27)}}
+	if c.Shift != [2]int64{} {
+		tfs = append(tfs, tf{1, c.Shift[0], c.Shift[1]})
+	}
+	for _, t := range tfs {
 		mx := maxAbs(clip.Paths64{c.Path})
 		if mx*float64(t.k)+math.Abs(float64(t.dx)) > (1<<29) || mx*float64(t.k)+math.Abs(float64(t.dy)) > (1<<29) {
-			continue
+			if t.k != 1 || t.dx != c.Shift[0] || t.dy != c.Shift[1] || !within29(c.Path, t.dx, t.dy) {
+				continue
+			}
 		}
 		g := func(p P) P { return P{X: p.X*t.k + t.dx, Y: p.Y*t.k + t.dy} }
 		gp := mapPts(clip.Paths64{c.Path}, g)[0]
@@ -196,9 +204,60 @@ func c16Check(o *Oracle, c simpCase) (ok bool, kind, detail string) {
 	return true, "", ""
 }
 
+func within29(p clip.Path64, dx, dy int64) bool {
+	for _, q := range p {
+		if x, y := q.X+dx, q.Y+dy; x > 1<<29 || x < -(1<<29) || y > 1<<29 || y < -(1<<29) {
+			return false
+		}
+	}
+	return true
+}
+
+// long oblique edges anywhere within 2^29, with exactly collinear vertices (mid points and
+// continuations): the squared-distance arithmetic works on products beyond 2^53 here
+func genBigSimpPath(r *Rng) (clip.Path64, [2]int64) {
+	m := []int64{1 << 20, 1 << 26, 1 << 27, 1 << 28, 1 << 29}[r.Intn(5)]
+	rp := func() P { return P{X: int64(r.Range(int(-m), int(m))), Y: int64(r.Range(int(-m), int(m)))} }
+	in := func(q P) bool { return q.X <= 1<<29 && q.X >= -(1<<29) && q.Y <= 1<<29 && q.Y >= -(1<<29) }
+	n := r.Range(4, 9)
+	p := clip.Path64{rp()}
+	for len(p) < n {
+		a := p[len(p)-1]
+		switch r.Pick(3, 3, 1) {
+		case 0:
+			p = append(p, rp())
+		case 1: // an exact mid point followed by the end of the edge
+			b := rp()
+			d := P{X: (b.X - a.X) / 2, Y: (b.Y - a.Y) / 2}
+			p = append(p, P{X: a.X + d.X, Y: a.Y + d.Y}, P{X: a.X + 2*d.X, Y: a.Y + 2*d.Y})
+		default: // near-collinear: one unit off the mid point
+			b := rp()
+			p = append(p, P{X: (a.X+b.X)/2 + int64(r.Range(-1, 1)), Y: (a.Y+b.Y)/2 + int64(r.Range(-1, 1))}, b)
+		}
+	}
+	for i := range p {
+		if !in(p[i]) {
+			p[i] = rp()
+		}
+	}
+	// a translation that keeps the path within 2^29
+	lo, hi := P{X: p[0].X, Y: p[0].Y}, P{X: p[0].X, Y: p[0].Y}
+	for _, q := range p {
+		lo.X, lo.Y, hi.X, hi.Y = min(lo.X, q.X), min(lo.Y, q.Y), max(hi.X, q.X), max(hi.Y, q.Y)
+	}
+	sh := func(l, h int64) int64 {
+		a, b := -(1<<29)-l, (1<<29)-h // admissible shifts
+		if b <= a {
+			return 0
+		}
+		return a + int64(r.Intn(int(b-a)))
+	}
+	return p, [2]int64{sh(lo.X, hi.X), sh(lo.Y, hi.Y)}
+}
+
 func init() {
 	stages["c16-search"] = func(ctx *Ctx, cnt func(q, t int) int, replay string) Result {
-		col := NewCollector("C16", "search", "paths of 0-10 vertices (zig-zags, near-collinear runs, duplicates) × ε ∈ {0, ½, 1, 1.5, 2, 3, 10} × closed/open × {SimplifyPath64, SimplifyPathD}; the Lean oracle judges subsequence, end points, the exact-rational post-condition (no retained vertex with dist² < ε²(1−10⁻⁹)), area at ε = 0; the harness compares the Paths variants and the retained vertices under translation (up to 2^29) and ×2^10, ×2^20 scaling of path and ε; non-trivial = at least one vertex removed")
+		col := NewCollector("C16", "search", "paths of 0-10 vertices (zig-zags, near-collinear runs, duplicates) × ε ∈ {0, ½, 1, 1.5, 2, 3, 10} × closed/open × {SimplifyPath64, SimplifyPathD}; the Lean oracle judges subsequence, end points, the exact-rational post-condition (no retained vertex with dist² < ε²(1−10⁻⁹)), area at ε = 0; a quarter of the cases are 4-10 vertex paths with long oblique edges, exact mid points and one-unit-off mid points anywhere within 2^29 (ε ∈ {0, ½, 1, 1000, 10⁶}); at ε = 0 a retained exactly collinear vertex is a violation; the harness compares the Paths variants and the retained vertices under translation (fixed ones up to 2^29 plus one random translation per big case that keeps it within 2^29) and ×2^10, ×2^20, ×2^22, ×2^21+2^27 scaling of path and ε; non-trivial = at least one vertex removed")
 		parallelFor(ctx, cnt(20000, 1500000), true, col, func(o *Oracle, i int) {
 			r := NewRng(ctx.Seed, "c16", i)
 			n := r.Range(0, 10)
@@ -218,6 +277,17 @@ func init() {
 					}
 				}
 				p = append(p, P{X: x, Y: y})
+			}
+			if r.Chance(0.25) {
+				bp, sh := genBigSimpPath(r)
+				c := simpCase{Path: bp, Eps: []float64{0, 0, 0.5, 1, 1000, 1e6}[r.Intn(6)], Closed: r.Bool(), D: r.Bool(), Shift: sh}
+				ok, kind, detail := c16Check(o, c)
+				out := runSimp(c, c.Path, c.Eps)
+				col.Eval(fmt.Sprint(c), len(out) < len(c.Path), "big-oblique", fmt.Sprintf("closed=%v", c.Closed), fmt.Sprintf("D=%v", c.D))
+				if !ok && !col.KindFull(kind) {
+					col.Violate(Violation{Property: "C16", Kind: kind, Signature: sigOf(c), Detail: detail, Case: c, Stream: "c16", Index: i, Seed: ctx.Seed})
+				}
+				return
 			}
 			c := simpCase{Path: p, Eps: []float64{0, 0.5, 1, 1.5, 2, 3, 10, 10, 1e9, 1.4e154, 1e300}[r.Intn(11)], Closed: r.Bool(), D: r.Chance(0.3)}
 			ok, kind, detail := c16Check(o, c)
